@@ -109,6 +109,17 @@ CHECKS = [
         "queues frames), and that the bytes written depend only on the frame argument.",
         "note": BASE_NOTE,
     },
+    {
+        "id": "C03",
+        "technique": "static analysis: registry agreement over folded tables, guard satisfiability (interval reasoning), abstract interpretation of payload strings into regular shapes with automata inclusion in the decoder's regexes",
+        "text": "Decides that each constructor is registered in CODE_API_MAP under exactly the (verb, code) pairs it can emit and that every public "
+        "constructor is registered; that every guard of a `raise CommandInvalid` is satisfiable; that, for every constructor whose payload "
+        "abstracts to a regular shape (fixed-width hex from format specs refined by the constructor's own range guards, codec helpers "
+        "summarised from their source), the shape is included in the decoder's regex for that verb/code (shortest counter-example otherwise; "
+        "index-taking constructors are grouped under _check_idx with the accepted index set per constructor); and OpenTherm parity agreement. "
+        "Does not decide that decoded values equal the arguments passed (needs execution).",
+        "note": BASE_NOTE + " Hex widths from format specs are exact modulo the codec's representable range (C04). Constructors whose payload does not abstract (listed in the evidence as undecided) are not covered by R3.",
+    },
 ]
 
 NOT_APPLICABLE = [
